@@ -303,7 +303,8 @@ def run_tissue(ck, case, reqs, pending):
                         f"correlation {corr:.4f} ({len(used)} cells, tensions {case['tensions']}, longest/shortest interface {ratio:.1f})", case, signature=sig)
     # ---------------- K
     reqs.append({"op": "pmatrix", "mesh": mesh_json(frame.vertices, frame.edges, frame.cells), "tension": [rat(t) for t in tens], "curv": [rat(c) for c in curv]})
-    pending.append(("pm", case, (L, rhs, removed, [int(c) for c in cells], internal, [len(obs["earr"][i]) for i in internal])))
+    pending.append(("pm", case, (L, rhs, removed, [int(c) for c in cells], internal, [len(obs["earr"][i]) for i in internal],
+                                 [len(frame.big_edges[i].own_cells) for i in internal])))
     if connected:
         reqs.append({"op": "pressure_cert", "L": [[rat(v) for v in row] for row in L], "r": [rat(v) for v in rhs], "p": [rat(v) for v in pk]})
         pending.append(("cert", case, scale))
@@ -339,9 +340,11 @@ def run(ck):
             if abs(mt - tot) > 1e-9 * (abs(tot) + 1.0):
                 ck.disagree("total curvature", f"model {mt} impl {tot}", case)
         elif kind == "pm":
-            L, rhs, removed, cells, internal, npts = rest[0]
+            L, rhs, removed, cells, internal, npts, nown = rest[0]
             if resp["internal"] != internal or resp["removed"] != removed or resp["mappingOrder"] != cells:
                 ck.disagree("pressure system layout", f"removed model {resp['removed']} impl {removed}", case); continue
+            if resp["ownCellCounts"] != nown:
+                ck.disagree("own cells per internal interface", f"model {resp['ownCellCounts'][:12]} impl {nown[:12]}", case); continue
             mL = np.array([[float(unrat(v)) for v in row] for row in resp["lhs"]]) if resp["lhs"] else np.zeros((0, 0))
             mr = np.array([float(unrat(v)) for v in resp["rhs"]])
             for k in range(len(internal)):
